@@ -330,7 +330,7 @@ func runC04Gaps2(c *eng.Ctx) {
 	rootGIn := `global:namespace\.RootNamespace`
 	tokNS, rootG := `^`+tokNSIn+`$`, `^`+rootGIn+`$`
 	if f := c.Fn("vault.(*ExpirationManager).createIndexByToken"); f != nil {
-		puts := nfEffs(nfPlain(nfMust(f, nil, nfNamed(`^<barrier\.View>\.Put$`), 2)))
+		puts := nfEffs(nfPlain(nfSitesLocal(f, `^<barrier\.View>\.Put$`)))
 		c.Floor(f, "index Put", len(puts), 1)
 		for _, e := range puts {
 			c.Clause("R5", "C04.12")
@@ -348,7 +348,7 @@ func runC04Gaps2(c *eng.Ctx) {
 			c.Clause("R5", "C04.12")
 			nfProv(c, st.Fn, "key of the token->lease index entry", st.St, st.St.Val, st.Fr, `^call:vault\.\(\*TokenStore\)\.SaltID#0$`, `^const:"/"$`)
 		}
-		for _, e := range nfEffs(nfMust(f, nil, nfNamed(`vault\.\(\*TokenStore\)\.SaltID$`), 1)) {
+		for _, e := range nfEffs(nfSitesLocal(f, `vault\.\(\*TokenStore\)\.SaltID$`)) {
 			c.Clause("R5", "C04.12")
 			g2All(c, e.Fn, "context the index key is salted in", e.Call.In, g2CtxOriginsF(e.Call.Args[1], e.Fr), "SaltID(ctx, ...)", `^ctxNS\{`+tokNSIn+`\}$`, `^ctxNS\{`+rootGIn+`\}$`)
 		}
@@ -439,7 +439,7 @@ func runC04Gaps2(c *eng.Ctx) {
 			c.Clause("R5", "C04.14")
 			nfProv(c, e.Fn, "id revoked", e.Call.In, e.Call.Args[2], e.Fr, `^call:vault\.\(\*TokenStore\)\.SaltID#0$`)
 		}
-		for _, e := range nfEffs(nfSites(f, `vault\.\(\*TokenStore\)\.SaltID$`)) {
+		for _, e := range nfEffs(nfSitesLocal(f, `vault\.\(\*TokenStore\)\.SaltID$`)) {
 			c.Clause("R5", "C04.14")
 			nfProv(c, e.Fn, "token salted", e.Call.In, e.Call.Args[2], e.Fr, w.idPat)
 		}
